@@ -57,6 +57,35 @@ Fixpoint ar_members (fuel : nat) (s : str) : option (list (str * str)) :=
 Definition ar_decode (s : str) : option (list (str * str)) :=
   if seqb (firstn 8 s) ar_magic then ar_members (S (List.length s)) (skipn 8 s) else None.
 
+(* the same walk keeping every header byte, for the per-run check that a real .deb IS [ar_encode] of its members *)
+Fixpoint ar_members_full (fuel : nat) (s : str) : option (list member) :=
+  match fuel with
+  | O => None
+  | S f =>
+      match s with
+      | [] => Some []
+      | _ =>
+          let h := firstn 60 s in
+          let name := take_whileb (fun b => negb (beq b sp)) (firstn 16 h) in
+          match parse_dec (take_whileb digitb (firstn 10 (skipn 48 h))) with
+          | None => None
+          | Some size =>
+              let after := skipn 60 s in
+              match ar_members_full f (skipn (size + (if Nat.odd size then 1 else 0)) after) with
+              | Some r => Some ({| m_name := name; m_rest := firstn 32 (skipn 16 h); m_body := firstn size after |} :: r)
+              | None => None
+              end
+          end
+      end
+  end.
+
+Definition ar_reencodes (s : str) : bool :=
+  seqb (firstn 8 s) ar_magic &&
+  match ar_members_full (S (List.length s)) (skipn 8 s) with
+  | Some ms => seqb (ar_encode ms) s
+  | None => false
+  end.
+
 (* debsign / dpkg --verify: the first three members' contents, concatenated as stored *)
 Definition debsign_input (ms : list (str * str)) : str := List.concat (map snd (firstn 3 ms)).
 
